@@ -209,6 +209,20 @@ def run(ctx):
         s, _, _, _ = spell(m, rng, variants=False)
         check(s, table, "default", "macrocycle")
         check("C1" + "C" * (nring - 2) + "C1" + "C(" + "C" * rng.choice([1, 20, 300]) + ")O", table, "default", "macrocycle-linear")
+    # long branches and long rings INSIDE other branches (1-3 index symbols at every nesting level)
+    sf.set_semantic_constraints("default")
+    table = sf.get_semantic_constraints()
+    inner_sizes = [15, 16, 17, 255, 256, 257, 600, 1023, 1024, 1025, 2000, 3900]
+    for bl in (inner_sizes[ctx.shard % 4::4] if quick else inner_sizes):
+        for depth in (1, 2, 3):
+            if bl + 8 * depth > 4090:
+                continue
+            inner = rng.choice(["N(%s)O" % ("C" * bl), "C1%sC1F" % ("C" * (bl - 2)), "C(%s)(%s)O" % ("C" * (bl // 2), "N" * (bl - bl // 2))])
+            s = inner
+            for _ in range(depth):
+                s = rng.choice(["CC(C%s)N", "S(%s)(F)Cl", "C(C(%s)O)N"]) % s
+            check(s, table, "default", "nested-long-branch")
+            ctx.count("nested_long_branches")
     # molecules with 100 or more ring bonds (chains of small rings, label reuse in the input)
     sf.set_semantic_constraints("default")
     for k in ([101] if quick else [99, 100, 101, 150, 400]):
